@@ -280,9 +280,13 @@ def job_selection(job):
                     want = T.bxor(1, sbit, 1 if iso.mask_cond(k, r, c) else 0)
                     ok_c = T.land(ok_c, T.eq(1, T.trunc(8, 1, cellv), want))
                 # second argument must be the transpose of this very candidate
-                ok_t = T.land(ok_t, T.eq(8, tc[c * n + r], cellv))
+                if tc is not None:
+                    ok_t = T.land(ok_t, T.eq(8, tc[c * n + r], cellv))
         items.append(('candidate %d is the placed codewords masked with pattern %d' % (k, k), ok_c))
-        col_items.append(('candidate %d is ranked with the transpose of that same candidate (column terms)' % k, ok_t))
+        if tc is not None:
+            col_items.append(('candidate %d is ranked with the transpose of that same candidate (column terms)' % k, ok_t))
+        else:
+            res.setdefault('notes', []).append('score() no longer takes the transposed candidate as an argument: the column-source clause is not checked at this interface')
     # emitted mask = first minimiser of the eight scores, forced mask overrides (shared with C04's oracle)
     d, mv = X.applied_mask_term(R)
     items.append(('emitted mask is Some', T.eq(64, d, 1)))
@@ -352,6 +356,21 @@ def job_selection(job):
                                 'replay': {'entry': 'place', 'version': v, 'level': level, 'mask': forced, 'stream': bytes(st).hex()}})
     a, _ = solver.check([T.ne(8, mv, 0)])
     res['vacuity'] = 1 if a == 'sat' else 0
+    if v <= 1 and not any(f_.get('confirmed') for f_ in res['failures']):
+        # validation of the composition argument (scoring functions proved on free modules + selection proved with the score
+        # uninterpreted => the emitted mask minimises the documented penalty): native builds of seed-chosen streams on the two
+        # smallest versions against the reference penalties of all eight candidates.  Sampling; it validates the stubbing,
+        # it does not decide the property.
+        rv = random.Random(seed * 3 + v)
+        st_, ms_, pens_, tried_ = selection_witness(native, v, rv.randrange(4), [[rv.randrange(256) for _ in range(total)] for _ in range(400 if v == 0 else 150)])
+        res['validation']['cases'] += tried_
+        if st_ is not None:
+            res['validation']['disagreements'] += 1
+            res['failures'].append({'key': 'C11/selection.composition', 'confirmed': True, 'obligation': 'native validation of the stage composition',
+                                    'what': ('automatic mask is not penalty-minimal: for V%02d stream %s... the emitted mask %d has documented penalty %d but mask %d has %d '
+                                             '(every symbolic obligation of this job held: the defect is in what the uninterpreted score hides, e.g. a changed contract between score and the selection loop)'
+                                             % (v + 1, bytes(st_[:10]).hex(), ms_, pens_[ms_], pens_.index(min(pens_)), min(pens_))),
+                                    'replay': {'entry': 'place', 'version': v, 'mask': None, 'stream': bytes(st_).hex(), 'penalties': pens_, 'emitted': ms_}})
     native.close()
     q = solver_counts(solver)
     q['syntactic'] = syn
